@@ -516,6 +516,25 @@ def rule_range_model(ck):
     for i_, st_ in enumerate(gbody[:cli[0]]):
         if any(isinstance(x, ast.Name) and isinstance(x.ctx, ast.Store) and x.id in rr_names for x in ast.walk(st_)):
             first = min(first, i_)   # the Range header is read/parsed before the size: evaluate from there
+    # whatever the region reads must be defined inside it: pull in earlier top-level statements that bind such names
+    # (the Range header local read before `request_range = None`, an explaining local, ...)
+    for _round in range(6):
+        stored, needed = set(), set()
+        for st_ in gbody[first:cli[0] + 1]:
+            for x in ast.walk(st_):
+                if isinstance(x, ast.Name):
+                    if isinstance(x.ctx, ast.Load) and x.id not in stored:
+                        needed.add(x.id)
+            for x in ast.walk(st_):
+                if isinstance(x, ast.Name) and isinstance(x.ctx, (ast.Store, ast.Del)):
+                    stored.add(x.id)
+        moved = False
+        for i_ in range(first - 1, -1, -1):
+            binds = {x.id for x in ast.walk(gbody[i_]) if isinstance(x, ast.Name) and isinstance(x.ctx, ast.Store)}
+            if binds & needed and not (isinstance(gbody[i_], ast.Expr) and isinstance(gbody[i_].value, ast.Constant)):
+                first, moved = i_, True
+        if not moved:
+            break
     region = gbody[first:cli[0] + 1]
     rr = [a.targets[0].id for a in q.walk_body(get.node) if isinstance(a, ast.Assign) and isinstance(a.value, ast.Call) and q.call_attr(a.value) == "_parse_request_range" and isinstance(a.targets[0], ast.Name)]
     if len(set(rr)) != 1:
